@@ -41,7 +41,7 @@ const fn p(name: &'static str, template: &'static str, in_expression: bool, expe
     Position { name, template, in_expression, expect }
 }
 
-const POSITIONS: [Position; 62] = [
+const POSITIONS: [Position; 64] = [
     p("declare", "DECLARE {} REAL[2]", false, 1),
     p("sharing", "DECLARE a BIT SHARING {}", false, 1),
     p("sharing-offset", "DECLARE a BIT SHARING {} OFFSET 1 BIT", false, 1),
@@ -104,6 +104,9 @@ const POSITIONS: [Position; 62] = [
     p("qubit-variable-delay-grouped", "DELAY {} (2*pi)", true, 1),
     p("qubit-variable-delay-two", "DELAY 0 {} (1+2)", true, 1),
     p("qubit-variable-delay-frames", "DELAY {} \"f\" 2*pi", false, 1),
+    // a name directly behind a numeric literal (where a literal's suffix would stand)
+    p("call-after-immediate", "CALL f 2 {} 1.5 {}", false, 2),
+    p("raw-capture-after-integer", "RAW-CAPTURE 0 \"f\" 2 {}", false, 1),
 ];
 
 fn addresses(e: &Expression, out: &mut Vec<String>) {
@@ -173,7 +176,16 @@ fn extract(position: &str, i: &Instruction) -> Option<Vec<String>> {
         ("store", Instruction::Store(s)) => vec![s.destination.clone(), s.offset.name.clone(), arith(&s.source)],
         ("measure-target" | "measure-target-indexed", Instruction::Measurement(m)) => vec![m.target.as_ref()?.name.clone()],
         ("capture-target", Instruction::Capture(c)) => vec![c.memory_reference.name.clone()],
-        ("raw-capture-target", Instruction::RawCapture(c)) => vec![c.memory_reference.name.clone()],
+        ("raw-capture-target" | "raw-capture-after-integer", Instruction::RawCapture(c)) => vec![c.memory_reference.name.clone()],
+        ("call-after-immediate", Instruction::Call(c)) => c
+            .arguments
+            .iter()
+            .filter_map(|a| match a {
+                UnresolvedCallArgument::Identifier(i) => Some(i.clone()),
+                UnresolvedCallArgument::MemoryReference(m) => Some(m.name.clone()),
+                UnresolvedCallArgument::Immediate(_) => None,
+            })
+            .collect(),
         ("jump-when-condition", Instruction::JumpWhen(j)) => vec![j.condition.name.clone()],
         ("expression-bare" | "expression-indexed" | "expression-nested-bare", Instruction::Gate(g)) => g.parameters.iter().flat_map(ex).collect(),
         ("expression-frame", Instruction::SetPhase(s)) => ex(&s.phase),
@@ -389,7 +401,7 @@ fn oracle(pos_index: usize, name: &str, out: &mut Outcome) -> Check {
 
 fn identifier(src: &mut Src, in_expression: bool) -> String {
     match src.below(6) {
-        0 => src.pick(&["Theta", "RO", "a-b", "x_1", "Q-Ubit-9", "beta-2", "ALPHA", "mIxEd", "r", "e", "E1", "PI_", "I_", "Sin2", "cosX", "i0", "pi2"]).to_string(),
+        0 => src.pick(&["Theta", "RO", "a-b", "x_1", "Q-Ubit-9", "beta-2", "ALPHA", "mIxEd", "r", "e", "E1", "PI_", "I_", "Sin2", "cosX", "i0", "pi2", "j", "J", "x", "b", "o", "e1", "E", "x1F", "b1", "_1"]).to_string(),
         _ => {
             if in_expression {
                 ident::ident_for_expression(src, 10)
@@ -405,7 +417,7 @@ impl Property for C06Prop {
         "C06"
     }
     fn rule(&self) -> &'static str {
-        "identifier x position: identifiers are a fixed list of mixed-case / dashed / near-reserved spellings (Theta, RO, a-b, Q-Ubit-9, PI_, Sin2, i0, ...) or random identifiers [A-Za-z_]([A-Za-z0-9_-]*[A-Za-z0-9_])? of length 1..10 that are not reserved tokens (and, in expression positions, not a case variant of pi / i / sin / cos / sqrt / exp / cis); 62 positions: DECLARE name, SHARING name, every classical operand, LOAD/STORE regions, MEASURE / CAPTURE / RAW-CAPTURE targets, jump conditions, bare and indexed names inside expressions (gate parameter, nested, frame update, DELAY, waveform parameter), LABEL / JUMP* targets, gate name (application, modified, DEFGATE, sequence element, DEFCAL, DEFCIRCUIT), %parameter names and qubit variables of each definition kind, DEFCAL MEASURE qubit and target, waveform names and parameter keys, frame attribute keys, PRAGMA name and arguments, CALL name and arguments, MEASURE!name, and qubit variables of body instructions (gate, MEASURE, RESET, FENCE, PULSE, SET-PHASE and four DELAY forms). Non-trivial = the identifier has an uppercase letter or a dash; distinct by (position, identifier)."
+        "identifier x position: identifiers are a fixed list of mixed-case / dashed / near-reserved spellings (Theta, RO, a-b, Q-Ubit-9, PI_, Sin2, i0, and the letters a numeric literal can end in or contain: j, J, e, E, x, b, o, e1, x1F, ...) or random identifiers [A-Za-z_]([A-Za-z0-9_-]*[A-Za-z0-9_])? of length 1..10 that are not reserved tokens (and, in expression positions, not a case variant of pi / i / sin / cos / sqrt / exp / cis); 64 positions: DECLARE name, SHARING name, every classical operand, LOAD/STORE regions, MEASURE / CAPTURE / RAW-CAPTURE targets, jump conditions, bare and indexed names inside expressions (gate parameter, nested, frame update, DELAY, waveform parameter), LABEL / JUMP* targets, gate name (application, modified, DEFGATE, sequence element, DEFCAL, DEFCIRCUIT), %parameter names and qubit variables of each definition kind, DEFCAL MEASURE qubit and target, waveform names and parameter keys, frame attribute keys, PRAGMA name and arguments, CALL name and arguments, MEASURE!name, and qubit variables of body instructions (gate, MEASURE, RESET, FENCE, PULSE, SET-PHASE and four DELAY forms), and a name directly behind a numeric literal (CALL argument after an immediate, RAW-CAPTURE target after an integer duration). Non-trivial = the identifier has an uppercase letter or a dash; distinct by (position, identifier)."
     }
     fn max_words(&self) -> usize {
         40
